@@ -62,6 +62,17 @@ def build(case):
     df = pd.DataFrame(data)
     df['period'] = np.arange(len(df)) + 10
     n = len(df)
+    extra = case.get('extra')
+    if extra:
+        # columns that carry no cycle feature (the label column flatten_dfs adds, an epoch number, a channel name): the rule is
+        # about the four feature columns and the row order only
+        block = max(1, n // 3)
+        if extra in ('Label-blocks', 'both'):
+            df['Label'] = [i // block for i in range(n)]
+        if extra == 'Label-const':
+            df['Label'] = 'task'
+        if extra in ('Epoch', 'both'):
+            df['Epoch'] = ['e%d' % (i % 2) for i in range(n)]
     kind = case.get('index', 'range')
     if kind == 'offset':
         df.index = pd.RangeIndex(5, 5 + n)
@@ -118,7 +129,7 @@ def check_synth(case, rec):
     if n:
         q[0] = q[-1] = False
     kept_and_removed = bool(got.any() and (q & ~got).any())
-    rec.label('index:' + case.get('index', 'range'), 'threshold-equality' if equal else 'no-equality', 'nan-interior' if nan_interior else 'no-nan-interior',
+    rec.label('index:' + case.get('index', 'range'), 'extra-columns:%s' % case.get('extra'), 'whole-interior-qualifies' if (n > 2 and q[1:-1].all()) else 'some-fail', 'rows=k+2' if n == eff['min_n_cycles'] + 2 else 'rows!=k+2', 'threshold-equality' if equal else 'no-equality', 'nan-interior' if nan_interior else 'no-nan-interior',
               'kept+removed-runs' if kept_and_removed else 'no-mixed-runs', 'k:%s' % th.get('min_n_cycles', 'default'),
               'bursts' if got.any() else 'no-bursts', 'monotone-strictly-fewer' if (got & ~got2).any() else 'monotone-same')
     rec.nontrivial(equal or nan_interior or kept_and_removed)
@@ -150,6 +161,7 @@ VALUE_CODES = ['nan', 'zero', 'one', 'eq', 'eq', 'ulp+', 'ulp+', 'ulp-', '+8', '
 @st.composite
 def strat_synth(draw, tier):
     n = draw(st.integers(1, 40))
+    whole = draw(st.integers(0, 5)) == 0     # every cycle qualifies and the table is about min_n_cycles + 2 rows long
     th = {}
     for c in COLS:
         if draw(st.integers(0, 5)) > 0:
@@ -161,8 +173,10 @@ def strat_synth(draw, tier):
     good = st.sampled_from(['ulp+', 'ulp+', '+8', '+8', 'one'])
     bad = st.sampled_from(['nan', 'zero', 'eq', 'eq', 'ulp-', '-8'])
     cols = {c: [] for c in COLS}
+    if whole:
+        n = max(1, th.get('min_n_cycles', 3) + draw(st.sampled_from([1, 2, 2, 2, 3])))
     for _ in range(n):
-        nfail = draw(st.sampled_from([0, 0, 0, 0, 1, 1, 2]))
+        nfail = 0 if whole else draw(st.sampled_from([0, 0, 0, 0, 1, 1, 2]))
         failing = draw(st.lists(st.sampled_from(COLS), min_size=nfail, max_size=nfail, unique=True)) if nfail else []
         for c in COLS:
             cols[c].append(draw(bad if c in failing else good))
@@ -174,7 +188,8 @@ def strat_synth(draw, tier):
     else:
         t = eff[which + '_threshold']
         th2[which + '_threshold'] = min(1.0, draw(st.sampled_from([t, math.nextafter(t, 2.0), t + 0.125, 1.0])))
-    return {'cols': cols, 'th': th, 'th2': th2, 'index': draw(st.sampled_from(['range', 'range', 'offset', 'repeated', 'repeated', 'reversed']))}
+    return {'cols': cols, 'th': th, 'th2': th2, 'index': draw(st.sampled_from(['range', 'range', 'offset', 'repeated', 'repeated', 'reversed'])),
+            'extra': draw(st.sampled_from([None, None, None, 'Label-blocks', 'Label-blocks', 'Label-const', 'Epoch', 'both']))}
 
 
 @st.composite
